@@ -433,6 +433,53 @@ pub fn c16(a: &Args) -> Report {
     }
     rep.count("supplement_thread_seed_samples", thread_runs);
     rep.notes.push("the fresh-thread runs are a SAMPLE of real hash seeds (supplement); the deciding part is the exhaustive seam exploration".into());
+    // the DIAGNOSTICS are output as well: every derive input of the C19 attribute grammar (each
+    // diagnostic the derive can produce is triggered by some of them) is expanded twice on one thread,
+    // forward and then in reverse order, and once more on a fresh thread; whatever was expanded
+    // before, the text must be the same
+    {
+        let mut seen = BTreeSet::new();
+        let cases: Vec<String> = c19_cases(Tier::Quick).into_iter().filter(|c| !c.desc.starts_with("diagnostic text") && !c.desc.starts_with("unknown name")).map(|c| c.src).filter(|s| seen.insert(s.clone())).filter(|s| s.parse::<proc_macro2::TokenStream>().is_ok()).collect();
+        let cases = std::sync::Arc::new(cases);
+        let c1 = cases.clone();
+        let (first, second): (Vec<String>, Vec<String>) = std::thread::spawn(move || {
+            let run = |s: &String| {
+                let g = vdrive::generate(s, false);
+                g.tokens.map(|t| t.to_string()).unwrap_or_else(|| format!("PANIC {:?}", g.observed.panicked))
+            };
+            let first: Vec<String> = c1.iter().map(run).collect();
+            let mut second: Vec<String> = c1.iter().rev().map(run).collect();
+            second.reverse();
+            (first, second)
+        })
+        .join()
+        .unwrap();
+        // a sample of them on fresh threads of their own (every 7th)
+        let mut bad = 0;
+        for (i, src) in cases.iter().enumerate() {
+            rep.count("traces_validated_against_impl", 2);
+            let mut differs = first[i] != second[i];
+            if !differs && i % 7 == 0 {
+                let s = src.clone();
+                let fresh = std::thread::spawn(move || {
+                    let g = vdrive::generate(&s, false);
+                    g.tokens.map(|t| t.to_string()).unwrap_or_else(|| format!("PANIC {:?}", g.observed.panicked))
+                })
+                .join()
+                .unwrap();
+                differs = fresh != second[i];
+                rep.count("traces_validated_against_impl", 1);
+            }
+            if differs {
+                bad += 1;
+                if bad <= 6 {
+                    rep.violations.push(viol("HISTORY-DEPENDENT", "c16", format!("derive input {src}"), "the output (diagnostics included) for this input depends on what was expanded before it in the same process".into(), json!({"src": src, "sm": false, "script": [], "diagnostics": true})));
+                }
+            }
+        }
+        rep.count("programs", cases.len() as u64);
+        rep.count("diagnostic_inputs_run_twice", cases.len() as u64);
+    }
     rep
 }
 
@@ -782,11 +829,65 @@ fn c18_eval(desc: &str, sources: &[String]) -> (u64, u64, Vec<Violation>) {
     (sources.len() as u64, nontrivial, v)
 }
 
+/// long item lists (more items than any small table, scan limit or batch could hold): 9, 13 and 18
+/// items with a dependency chain among the subpatterns; every order obtained by moving ONE item to
+/// another position that keeps each subpattern behind the ones it uses
+pub fn c18_many_items_cases() -> Vec<(String, Vec<String>)> {
+    // (item text, indices of the items it depends on)
+    let full: Vec<(&str, Vec<usize>)> = vec![
+        ("subpattern s0 = \"[0-9]\"", vec![]),
+        ("subpattern s1 = \"[a-f]\"", vec![]),
+        ("subpattern s2 = \"_\"", vec![]),
+        ("subpattern s3 = \"\\\\.\"", vec![]),
+        ("subpattern c0 = \"(?&s0)+\"", vec![0]),
+        ("subpattern c1 = \"(?&s0)|(?&s1)\"", vec![0, 1]),
+        ("subpattern c2 = \"(?&c0)(?&s3)(?&c0)\"", vec![4, 3]),
+        ("subpattern c3 = \"(?&c1)+(?&s2)?\"", vec![5, 2]),
+        ("subpattern c4 = \"(?&c2)|(?&c3)\"", vec![6, 7]),
+        ("skip \" +\"", vec![]),
+        ("extras = Ex", vec![]),
+        ("subpattern ws = \"[ \\\\t]\"", vec![]),
+        ("subpattern c5 = \"(?&c4)(?&ws)\"", vec![8, 11]),
+        ("error = Er", vec![]),
+        ("subpattern s4 = \"x\"", vec![]),
+        ("subpattern c6 = \"(?&s4)(?&c5)?\"", vec![14, 12]),
+        ("subpattern s5 = \"y\"", vec![]),
+        ("subpattern c7 = \"(?&c6)|(?&s5)\"", vec![15, 16]),
+    ];
+    let mut cases = vec![];
+    for n in [9usize, 13, 18] {
+        let items = &full[..n];
+        let last_sub = (0..n).rev().find(|i| items[*i].0.starts_with("subpattern c")).unwrap();
+        let user = items[last_sub].0.split_whitespace().nth(1).unwrap();
+        let render = |order: &[usize]| format!("#[logos({})] enum T {{ #[token(\"zz\")] Z, #[regex(\"(?&{user})!\")] B, }}", order.iter().map(|i| items[*i].0).collect::<Vec<_>>().join(", "));
+        let canon: Vec<usize> = (0..n).collect();
+        let mut sources = vec![render(&canon)];
+        for x in 0..n {
+            for p in 0..n {
+                if p == x {
+                    continue;
+                }
+                let mut order = canon.clone();
+                order.remove(x);
+                order.insert(p, x);
+                // every item behind its dependencies
+                let pos = |i: usize| order.iter().position(|o| *o == i).unwrap();
+                if (0..n).all(|i| items[i].1.iter().all(|d| pos(*d) < pos(i))) {
+                    sources.push(render(&order));
+                }
+            }
+        }
+        cases.push((format!("long item list ({n} items, one item moved)"), sources));
+    }
+    cases
+}
+
 pub fn c18(a: &Args) -> Report {
     let mut rep = Report::new(&a.prop, "vgraph c18", &a.tier_name);
     rep.bounds.insert("rule".into(), "every subset (size >= 2) of the named arguments {priority, callback, ignore(case), allow_greedy} of #[token] / #[regex] / skip(...), with and without a positional callback, in every permutation; every sub-multiset (2..=5 items) of the #[logos(...)] items {skip, skip(..), extras, error, error(..), utf8, crate, subpattern a, subpattern b(uses a)} in every permutation that keeps a before b; 6 item sets with SEVERAL skips (equal and unequal priorities) in every permutation, in one attribute and split over several, compared by acceptance + canonical graph (leaves renumber); callback values with `<`, `<<`, turbofish and commas inside braces. A case is non-trivial when its order differs from the canonical (first) order. Oracle: generate()'s token string equals that of the canonical order.".into());
     let mut cases = c18_cases();
     cases.extend(c18_generic_cases());
+    cases.extend(c18_many_items_cases());
     let n_text = cases.len();
     cases.extend(c18_skip_cases());
     let n_equiv = cases.len();
@@ -1631,6 +1732,11 @@ pub fn probe_emit(a: &Args) {
         // inline callbacks whose body is a tuple, an array, or starts with a parenthesised / bracketed operand
         "#[derive(Logos, Debug, PartialEq)] pub enum T { #[regex(\"[a-z]+\", |lex| (lex.slice().len(), 1u8))] W((usize, u8)), #[regex(\"[0-9]+\", |lex| [lex.slice().len() as u8; 2])] N([u8; 2]), #[regex(\"=+\", |lex| (lex.slice().len() as u32).pow(2) + 1)] E(u32), #[regex(\"-+\", callback = |lex| [1usize, 2][0] + lex.slice().len())] M(usize), #[regex(\"_+\", |l| (l.slice().len() > 1) && true)] U }",
         "#[derive(Debug, PartialEq, Clone, Default)] pub struct E(usize, usize); #[derive(Logos, Debug, PartialEq)] #[logos(error(E, callback = |lex| (|s: core::ops::Range<usize>| E(s.start, s.end))(lex.span())))] #[logos(skip(\" +\", |lex| (lex.slice().len() > 0).then_some(()).ok_or(E(0, 0))))] pub enum T { #[token(\"a\")] A }",
+        // FIELD TYPES that mention the enum's own lifetime in every position a type can hold one
+        // (reference, generic argument, tuple, array, fn pointer, trait-object bound, nested): with the
+        // implicit source lifetime all of them have to be renamed consistently
+        "use logos::Lexer; fn fa<'a>(lex: &mut Lexer<'a, T<'a>>) -> Box<dyn Fn() -> usize + 'a> { let s: &'a str = lex.slice(); Box::new(move || s.len()) } fn fb<'a>(_lex: &mut Lexer<'a, T<'a>>) -> Box<dyn Fn() -> usize + 'static> { Box::new(|| 7) } fn fi<'a>(lex: &mut Lexer<'a, T<'a>>) -> Vec<(&'a str, Box<dyn Fn(&'a str) -> &'a str + 'a>)> { let s: &'a str = lex.slice(); vec![(s, Box::new(move |_| s))] } fn fg<'a>(_lex: &mut Lexer<'a, T<'a>>) -> fn(&'a str) -> usize { |s| s.len() } #[derive(Logos)] pub enum T<'a> { #[regex(\"a+\", fa)] A(Box<dyn Fn() -> usize + 'a>), #[regex(\"b+\", fb)] B(Box<dyn Fn() -> usize + 'static>), #[regex(\"c+\", |lex| (lex.slice(), 1usize))] C((&'a str, usize)), #[regex(\"d+\", |lex| [lex.slice()])] D([&'a str; 1]), #[regex(\"e+\", |lex| Some(lex.slice()))] E(Option<&'a str>), #[regex(\"f+\", |lex| std::borrow::Cow::Borrowed(lex.slice()))] F(std::borrow::Cow<'a, str>), #[regex(\"g+\", fg)] G(fn(&'a str) -> usize), #[regex(\"h+\", |_| std::marker::PhantomData)] H(std::marker::PhantomData<&'a ()>), #[regex(\"i+\", fi)] I(Vec<(&'a str, Box<dyn Fn(&'a str) -> &'a str + 'a>)>), #[regex(\"k+\", |lex| lex.slice().as_bytes())] K(&'a [u8]), #[regex(\"l+\", |lex| Box::new(lex.slice()) as Box<dyn std::fmt::Debug + Send + '_>)] L(Box<dyn std::fmt::Debug + Send + 'a>) }",
+        "use logos::Lexer; #[derive(Logos)] #[logos(utf8 = false)] pub enum T<'x> { #[regex(b\"a+\", |lex| lex.slice())] A(&'x [u8]), #[regex(b\"b+\", |lex| Box::new(lex.slice()) as Box<dyn AsRef<[u8]> + '_>)] B(Box<dyn AsRef<[u8]> + 'x>), #[regex(b\"c+\", |lex| (lex.slice(), [lex.slice().len()]))] C((&'x [u8], [usize; 1])) }",
     ];
     for (k, e) in extras.iter().enumerate() {
         let _ = writeln!(good, "pub mod x{k} {{\n    use logos::Logos;\n    {e}\n}}");
